@@ -46,6 +46,11 @@ pub enum SolverKind {
     BuilderAuto,
     /// `Clarabel` through the builder's `Solver::solve`
     BuilderClarabel,
+    /// the whole builder door: a `ModelBuilder` rebuilt from the model, `solve_with(Microlp::new()…)`; reports the
+    /// accessors of the `BuilderSolution` next to those of its inner `LpSolution`
+    BuilderDoorMicrolp,
+    /// `ModelBuilder … solve_with(Clarabel)`
+    BuilderDoorClarabel,
     /// microlp called directly like `milp_solver.rs` does: raw status / objective / `var_value`s
     RawMilp,
     /// microlp called directly like `simplex_solver.rs::solve_real_lp_problem_micro_lp` does
@@ -58,6 +63,7 @@ impl SolverKind {
         match self {
             SolverKind::Milp => "milp", SolverKind::Auto => "auto", SolverKind::MicroLp => "microlp",
             SolverKind::Clarabel => "clarabel", SolverKind::Simplex => "simplex", SolverKind::RawMilp => "raw-milp",
+            SolverKind::BuilderDoorMicrolp => "builder-door-microlp", SolverKind::BuilderDoorClarabel => "builder-door-clarabel",
             SolverKind::BuilderMicrolp => "builder-microlp", SolverKind::BuilderAuto => "builder-auto", SolverKind::BuilderClarabel => "builder-clarabel",
             SolverKind::RawMicroLp => "raw-microlp", SolverKind::RawClarabel => "raw-clarabel",
         }
@@ -100,6 +106,12 @@ pub struct Sol {
     pub constraints: Vec<(String, F)>,
     /// `LpSolution::shadow_prices()` in map order (raw-clarabel: one entry per row, unnamed included)
     pub duals: Vec<(String, F)>,
+    /// the same facts read through EVERY other public accessor (`key -> rendering`): `status.trait` (`SolveStatus::status`),
+    /// `status.builder` (`BuilderSolution::status`), `value.trait`, `price.trait:<name>` / `price.builder:<name>`
+    /// (`DualValues::shadow_price`, `BuilderSolution::shadow_price`) and `price.inherent:<name>` (`shadow_prices().get`),
+    /// `activity.trait:<name>` / `activity.inherent:<name>`, for every row name, the empty name and an unknown name
+    #[serde(default)]
+    pub accessors: Vec<(String, String)>,
 }
 
 #[derive(Clone, Debug, Serialize, Deserialize)]
@@ -327,6 +339,7 @@ pub fn pack_milp(lm: &LinearModel, r: Result<rooc::LpSolution<rooc::MILPValue>, 
             by_name: lm.variables().iter().map(|n| (n.clone(), s.value_of(n).map(conv))).collect(),
             constraints: fmap(s.constraints()),
             duals: fmap(s.shadow_prices()),
+            accessors: accessors(lm, &s),
         }),
         Err(e) => Outcome::Err { variant: err_variant(&e).into(), msg: e.to_string() },
     }
@@ -340,8 +353,88 @@ fn pack_real(lm: &LinearModel, r: Result<rooc::LpSolution<f64>, rooc::SolverErro
             by_name: lm.variables().iter().map(|n| (n.clone(), s.value_of(n).map(Val::Real))).collect(),
             constraints: fmap(s.constraints()),
             duals: fmap(s.shadow_prices()),
+            accessors: accessors(lm, &s),
         }),
         Err(e) => Outcome::Err { variant: err_variant(&e).into(), msg: e.to_string() },
+    }
+}
+
+fn opt_f(v: Option<f64>) -> String { match v { Some(x) => format!("some:{:016x}", if x.is_nan() { f64::NAN.to_bits() } else { x.to_bits() }), None => "none".into() } }
+
+/// names every accessor is queried with: the row names, the empty name, a name no row has
+fn query_names(lm: &LinearModel) -> Vec<String> {
+    let mut v: Vec<String> = vec![];
+    for r in lm.constraints() { if !v.contains(&r.name()) { v.push(r.name()); } }
+    if !v.contains(&String::new()) { v.push(String::new()); }
+    v.push("no-such-row".into());
+    v
+}
+
+/// the solution read through the capability traits (what `BuilderSolution` dispatches through) next to the inherent accessors
+fn accessors<T>(lm: &LinearModel, s: &rooc::LpSolution<T>) -> Vec<(String, String)>
+where T: Clone + serde::Serialize + serde::de::DeserializeOwned + Copy + std::fmt::Display + Into<f64> {
+    use rooc::{ConstraintValues, DualValues, SolveStatus};
+    let mut a = vec![
+        ("status.inherent".to_string(), status_name(s.status()).to_string()),
+        ("status.trait".to_string(), status_name(SolveStatus::status(s)).to_string()),
+        ("value.inherent".to_string(), opt_f(Some(s.value()))),
+        ("value.trait".to_string(), opt_f(Some(rooc::Solution::objective_value(s)))),
+    ];
+    for n in query_names(lm) {
+        a.push((format!("price.inherent:{}", n), opt_f(s.shadow_prices().get(&n).copied())));
+        a.push((format!("price.trait:{}", n), opt_f(DualValues::shadow_price(s, &n))));
+        a.push((format!("activity.inherent:{}", n), opt_f(s.constraints().get(&n).copied())));
+        a.push((format!("activity.trait:{}", n), opt_f(ConstraintValues::constraint_value(s, &n))));
+    }
+    a
+}
+
+/// the model rebuilt as a `ModelBuilder` and solved through `solve_with`: the `BuilderSolution` accessors against those of
+/// the `LpSolution` it wraps (the compiled model may differ from `lm` — derived bounds, column order — so only the
+/// AGREEMENT of the accessors is reported here, never values against `lm`)
+fn builder_door<S, T>(lm: &LinearModel, solver: S, conv: impl Fn(T) -> Val) -> Outcome
+where
+    S: rooc::Solver<Solution = rooc::LpSolution<T>>,
+    T: Clone + serde::Serialize + serde::de::DeserializeOwned + Copy + std::fmt::Display + Into<f64>,
+{
+    use rooc::{BuilderConstraint, Expr, ModelBuilder};
+    let mut b = ModelBuilder::new();
+    let mut vars = vec![];
+    for n in lm.variables() {
+        let t = match lm.domain().get(n) { Some(d) => d.get_type().clone(), None => return Outcome::Err { variant: "pre:missing-domain".into(), msg: String::new() } };
+        vars.push(b.add_var(n.clone(), t));
+    }
+    let lin = |cs: &[f64]| -> Expr { rooc::builder::sum(cs.iter().zip(vars.iter()).filter(|(c, _)| **c != 0.0).map(|(c, v)| Expr::from(*v) * *c)) };
+    for r in lm.constraints() {
+        b = b.with(BuilderConstraint::new(lin(r.coefficients()), *r.constraint_type(), Expr::Number(r.rhs()), r.name()));
+    }
+    b = match lm.optimization_type() {
+        OptimizationType::Min => b.minimize(lin(lm.objective()) + lm.objective_offset()),
+        OptimizationType::Max => b.maximize(lin(lm.objective()) + lm.objective_offset()),
+        OptimizationType::Satisfy => b.satisfy(),
+    };
+    match b.solve_with(solver) {
+        Ok(bs) => {
+            let s = bs.solution();
+            let mut acc = accessors(lm, s);
+            acc.push(("status.builder".into(), status_name(bs.status()).to_string()));
+            acc.push(("value.builder".into(), opt_f(Some(bs.value()))));
+            for n in query_names(lm) {
+                acc.push((format!("price.builder:{}", n), opt_f(bs.shadow_price(&n))));
+                acc.push((format!("activity.builder:{}", n), opt_f(bs.constraint_value(&n))));
+            }
+            Outcome::Solution(Sol {
+                status: status_name(s.status()).into(),
+                value: s.value(),
+                assignment: s.assignment().iter().map(|a| (a.name.clone(), conv(a.value))).collect(),
+                by_name: lm.variables().iter().map(|n| (n.clone(), s.value_of(n).map(&conv))).collect(),
+                constraints: fmap(s.constraints()),
+                duals: fmap(s.shadow_prices()),
+                accessors: acc,
+            })
+        }
+        Err(rooc::BuilderError::Solver(e)) => Outcome::Err { variant: err_variant(&e).into(), msg: e.to_string() },
+        Err(e) => Outcome::Err { variant: "Linearization".into(), msg: format!("{:?}", e).chars().take(60).collect() },
     }
 }
 
@@ -368,6 +461,13 @@ fn run(kind: SolverKind, lm: &LinearModel, o: &Opts, pin: bool) -> Outcome {
         }
         SolverKind::BuilderAuto => { use rooc::Solver; pack_milp(lm, rooc::Auto.solve(lm)) }
         SolverKind::BuilderClarabel => { use rooc::Solver; pack_real(lm, rooc::Clarabel.solve(lm)) }
+        SolverKind::BuilderDoorMicrolp => {
+            let mut m = rooc::Microlp::new();
+            if let Some(g) = o.mip_gap_bits { m = m.with_mip_gap(f64::from_bits(g)); }
+            if let Some(ns) = o.time_limit_ns { m = m.with_time_limit(Duration::from_nanos(ns)); }
+            builder_door(lm, m, |v| match v { rooc::MILPValue::Bool(b) => Val::Bool(b), rooc::MILPValue::Int(i) => Val::Int(i), rooc::MILPValue::Real(r) => Val::Real(r) })
+        }
+        SolverKind::BuilderDoorClarabel => builder_door(lm, rooc::Clarabel, Val::Real),
         SolverKind::RawMilp => raw_milp(lm, o, pin),
         SolverKind::RawMicroLp => raw_microlp(lm, pin),
         SolverKind::RawClarabel => raw_clarabel(lm),
@@ -433,7 +533,7 @@ fn raw_milp(lm: &LinearModel, o: &Opts, pin: bool) -> Outcome {
             status: mlp_status(s.status()).into(),
             value: s.objective(),
             assignment: vars.iter().zip(mv.iter()).map(|(n, v)| (n.clone(), Val::Real(s.var_value(*v)))).collect(),
-            by_name: vec![], constraints: vec![], duals: vec![],
+            by_name: vec![], constraints: vec![], duals: vec![], accessors: vec![],
         }),
         Err(e) => mlp_err(e),
     }
@@ -471,7 +571,7 @@ fn raw_microlp(lm: &LinearModel, pin: bool) -> Outcome {
             status: mlp_status(s.status()).into(),
             value: s.objective(),
             assignment: lm.variables().iter().zip(mv.iter()).map(|(n, v)| (n.clone(), Val::Real(s[*v]))).collect(),
-            by_name: vec![], constraints: vec![], duals: vec![],
+            by_name: vec![], constraints: vec![], duals: vec![], accessors: vec![],
         }),
         Err(e) => mlp_err(e),
     }
@@ -526,7 +626,7 @@ fn raw_clarabel(lm: &LinearModel) -> Outcome {
             Outcome::Solution(Sol {
                 status, value: 0.0,
                 assignment: vars.iter().zip(values.iter()).map(|(n, v)| (n.clone(), Val::Real(*v))).collect(),
-                by_name: vec![], constraints: vec![], duals,
+                by_name: vec![], constraints: vec![], duals, accessors: vec![],
             })
         }
         Err(e) => {
